@@ -179,8 +179,8 @@ def _mask(raw):
 
 
 class Engine(object):
-    def __init__(self, base_image, conf=None):
-        self.h = Harness(image=base_image, conf_overrides=conf)
+    def __init__(self, base_image, conf=None, fk=True):
+        self.h = Harness(image=base_image, conf_overrides=conf, fk=fk)
         self.base = base_image
         self.probe = Probe(self.h, authorizer=True)
         self.cols = {}
@@ -393,6 +393,7 @@ class Judge(object):
         self.viol = []
         self.retry_schedules = 0
         self.nested_reads = 0
+        self.notes = {}
 
     def serial(self, order):
         if order not in self.serial_cache:
@@ -430,7 +431,11 @@ class Judge(object):
                 break
         tags = [r.get('tag', '%s %s' % (r['method'], r['path'])) for r in reqs_]
         for i, r in enumerate(ex.resps):
-            if r.status >= 500:
+            if r.status >= 500 and self.prop in ('C08', 'C09'):
+                # referential integrity and the forest are about stored rows; a racing request
+                # answered 5xx has no effect (checked below) -- counted, not judged here
+                self.notes['5xx:%s' % tags[i]] = self.notes.get('5xx:%s' % tags[i], 0) + 1
+            elif r.status >= 500:
                 add('5xx:%s|vs|%s' % (tags[i], '+'.join(t for j, t in enumerate(tags) if j != i)),
                     '%s answered %s %s under schedule %s' % (tags[i], r.status, r.raw[:200], sched))
         winners = tuple(i for i in range(n) if statuses[i] < 300)
@@ -464,11 +469,13 @@ class Judge(object):
                 'same state (serial %s -> statuses %s, diff %s)' % (
                     sched, statuses, list(winners), list(order), st,
                     diff(d, dump, gens=True)))
-        for m in inv_ref(dump) + inv_consumer(dump):
+        from vp.snapshot import inv_forest
+        for m in inv_ref(dump) + inv_consumer(dump) + inv_forest(dump):
             add('invariant:%s' % '+'.join(sorted(tags)), 'after schedule %s (%s): %s' % (
                 sched, statuses, m))
         # losers: 409 concurrent_update, or an answer they also get in some serial order
-        for i in range(n):
+        # (the generation properties' business; C08/C09 judge invariants and serial equivalence)
+        for i in range(n if self.prop not in ('C08', 'C09') else 0):
             if statuses[i] < 300 or statuses[i] >= 500:
                 continue
             code = ex.resps[i].err_code()
@@ -534,8 +541,8 @@ def _below_1_23(req):
 
 
 class ConcWorker(object):
-    def __init__(self, base_image, conf=None):
-        self.eng = Engine(base_image, conf)
+    def __init__(self, base_image, conf=None, fk=True):
+        self.eng = Engine(base_image, conf, fk)
         self.images = {}
 
     def work(self, task):
@@ -555,22 +562,23 @@ class ConcWorker(object):
                    [r.status for r in a.resps] == [r.status for r in b.resps])
         st['outcomes'] = {repr(k): v for k, v in st['outcomes'].items()}
         return {'stats': st, 'viol': judge.viol[:50], 'nested_reads': judge.nested_reads,
+                'notes': judge.notes,
                 'determinism': det, 'name': task.get('name')}
 
 
-def make_worker(base_image, conf=None):
-    return ConcWorker(base_image, conf)
+def make_worker(base_image, conf=None, fk=True):
+    return ConcWorker(base_image, conf, fk)
 
 
-def run_scenarios(ctx, prop, scenarios, modname='vp.explore_conc'):
+def run_scenarios(ctx, prop, scenarios, modname='vp.explore_conc', fk=True):
     """scenarios: list of dict(name, setup, requests, bound, max_exec). Returns totals."""
     from vp.boot import make_base_image
     from vp.workers import Pool
     base = make_base_image()
-    pool = Pool(ctx.workers, 'vp.explore_conc', 'make_worker', (base,))
+    pool = Pool(ctx.workers, 'vp.explore_conc', 'make_worker', (base, None, fk))
     tot = {'scenarios': 0, 'executions': 0, 'states': 0, 'transitions': 0, 'leaves': 0,
            'capped': [], 'single_outcome': [], 'outcome_vectors': {}, 'nested_read_scenarios': 0,
-           'determinism_checks': 0, 'max_preemptions': 0, 'samples': []}
+           'determinism_checks': 0, 'max_preemptions': 0, 'samples': [], 'notes': {}}
     tasks = []
     import os
     only = os.environ.get('VP_ONLY')
@@ -598,6 +606,8 @@ def run_scenarios(ctx, prop, scenarios, modname='vp.explore_conc'):
             tot['outcome_vectors'][s['name']] = st['outcomes']
             if res['nested_reads']:
                 tot['nested_read_scenarios'] += 1
+            for k, v in (res.get('notes') or {}).items():
+                tot['notes'][k] = tot['notes'].get(k, 0) + v
             if res['determinism'] is not None:
                 tot['determinism_checks'] += 1
                 if not res['determinism']:
@@ -605,7 +615,7 @@ def run_scenarios(ctx, prop, scenarios, modname='vp.explore_conc'):
             for sig, msg, sched, statuses in res['viol']:
                 ctx.violation(sig, msg, {'engine': 'conc', 'prop': prop, 'setup': s['setup'],
                                          'requests': s['requests'], 'schedule': sched,
-                                         'statuses': statuses})
+                                         'statuses': statuses, 'fk': fk})
             if len(tot['samples']) < 3:
                 tot['samples'].append({'scenario': s['name'], 'outcomes': st['outcomes'],
                                        'states': st['states'], 'executions': st['executions']})
@@ -621,7 +631,7 @@ def run_scenarios(ctx, prop, scenarios, modname='vp.explore_conc'):
 def replay(ctx, data):
     from vp.boot import make_base_image
     base = make_base_image()
-    eng = Engine(base)
+    eng = Engine(base, None, data.get('fk', True))
     image = eng.build(data['setup'])
     judge = Judge(eng, image, data['requests'], data['prop'])
     ex, d = eng.run_schedule(image, data['requests'], data['schedule'])
